@@ -669,12 +669,21 @@ start:
 	}
 
 	processPhis := func(b *ir.BasicBlock, i int, s state) state {
+		// All phis of a block are evaluated in parallel: read every incoming
+		// value before updating any phi, or a swap (a, b = b, a) in a loop
+		// would see the already updated value of the other phi.
+		var phis []*ir.Phi
+		var incoming []ValueNilness
 		for _, instr := range b.Instrs {
 			if instr, ok := instr.(*ir.Phi); ok {
-				s.set(instr, s.get(instr.Edges[i]))
+				phis = append(phis, instr)
+				incoming = append(incoming, s.get(instr.Edges[i]))
 			} else {
 				break
 			}
+		}
+		for j, phi := range phis {
+			s.set(phi, incoming[j])
 		}
 		return s
 	}
